@@ -460,7 +460,11 @@ func BuildMsg(m int, cfg Cfg, failing bool) (*mail.Msg, error) {
 				n2, err := io.WriteString(w, bodyTail)
 				return int64(n1 + n2), err
 			}
-			n, err := io.WriteString(w, bodyHead+bodyTail)
+			mid := ""
+			if cfg.Variant == "crbody" { // an unencoded body with lines that end in a bare CR, dots right after them
+				mid = "a line that ends in a bare carriage return\r.a dot after it\r.\rand a lone dot between two of them\r\n"
+			}
+			n, err := io.WriteString(w, bodyHead+mid+bodyTail)
 			return int64(n), err
 		})
 	}
